@@ -51,6 +51,18 @@ fn scenario(rng: &mut Rng, steps: usize, async_persist: bool, with_disc: bool, w
 			net.nodes[0].node.timer_tick_occurred();
 			net.pump(0);
 			net.trace.push(Obs::Event { node: 0, text: format!("FEERATE {}", f) });
+			// crossing updates: before the update_fee is delivered the fundee announces several HTLCs of its own (more than the
+			// funder's CONCURRENT_INBOUND_HTLC_FEE_BUFFER covers): they are not part of the commitment the funder signed
+			if rng.chance(1, 2) {
+				for _ in 0..rng.range(3, 5) {
+					let ch = net.nodes[1].node.list_channels();
+					let (lim, min) = match ch.get(0) { Some(c) => (c.next_outbound_htlc_limit_msat, c.next_outbound_htlc_minimum_msat), None => break };
+					let amt = (400_000 + rng.below(900_000)).max(min);
+					if amt > lim { break; }
+					let _ = net.send(&[1, 0], &[c], amt, 80);
+					net.process_events(1);
+				}
+			}
 			net.sample_balances(c); continue;
 		}
 		match rng.below(16) {
@@ -132,6 +144,15 @@ fn scenario(rng: &mut Rng, steps: usize, async_persist: bool, with_disc: bool, w
 		if net.any_queued().is_none() && (0..2).all(|i| net.pending_updates(i, c).is_empty()) { net.settle(4); if net.any_queued().is_none() { break; } }
 	}
 	net.sample_balances(c);
+	// everything held behind a monitor update is released once the update completes: after the drain (all updates completed, all
+	// messages delivered, everything claimable claimed) every payment has a terminal event at its sender
+	if net.closed.is_empty() && !net.trace.iter().any(|o| matches!(o, Obs::ProtoError { .. })) {
+		for p in 0..net.pays.len() {
+			let h = net.pays[p].hash; let from = net.pays[p].from;
+			let done = net.events[from].iter().any(|e| match e { lightning::events::Event::PaymentSent { payment_hash, .. } => *payment_hash == h, lightning::events::Event::PaymentFailed { payment_hash: Some(ph), .. } => *ph == h, _ => false });
+			if !done { viol.push(format!("payment #{} ({} msat, n{} -> n{}) has no terminal event (PaymentSent / PaymentFailed) at its sender after the drain: something held behind a monitor update was never released", p, net.pays[p].amt, from, net.pays[p].to)); }
+		}
+	}
 	// the reported limits are exact: an HTLC sent exactly at the limit / minimum is accepted by the peer
 	// (it ends up claimable there and, since the drain claims everything claimable, PaymentSent at the sender)
 	for (p, what, amt, raced) in at_limit {
